@@ -6,7 +6,7 @@ import time
 
 VERIF = os.path.dirname(os.path.dirname(os.path.dirname(os.path.abspath(__file__))))
 KNOWN = os.path.join(VERIF, "known_findings.json")
-EVIDENCE_DIR = os.path.join(VERIF, "evidence")
+EVIDENCE_DIR = os.environ.get("CV_EVIDENCE_DIR") or os.path.join(VERIF, "evidence")
 
 TRUSTED_BASE = [
     "rustc nightly 1.97: MIR construction (mir_built), type checking, Instance resolution",
